@@ -81,8 +81,16 @@ class VectorContainer:
     @staticmethod
     def _locate_period_in_span_fallback(period: Hashable, span: np.ndarray) -> int:
         """Fallback (static) location method, should other `span`-indexing methods fail."""
+        # Compare a non-scalar `period` (e.g. a tuple) with each label as a
+        # whole: left as is, NumPy would broadcast it against `span` and match
+        # element by element (`(5, 2001, 7)` would locate 2001)
+        target = period
+        if np.ndim(period) != 0:
+            target = np.empty((), dtype=object)
+            target[()] = period
+
         # Convert `span` to a NumPy array of type `object` and locate matches
-        locations = np.asarray(np.asarray(span, dtype=object) == period).nonzero()
+        locations = np.asarray(np.asarray(span, dtype=object) == target).nonzero()
 
         # For now(?), only support one-dimensional array-likes
         assert len(locations) == 1
